@@ -71,7 +71,7 @@ fn case_json(kind: &str, stream: &[u8], cuts: &[usize], flavor: Flavor, mask: u6
 }
 
 fn describe_session(s: &Session) -> String {
-    format!("{} response(s) {:?} then {:?}", s.responses.len(), s.responses.iter().map(|r| r.to_json().to_string()).map(|s| if s.len() > 160 { format!("{}…", &s[..160]) } else { s }).collect::<Vec<_>>(), s.end)
+    format!("{} response(s) {:?} then {:?}", s.responses.len(), s.responses.iter().map(|r| r.to_json().to_string()).map(|s| if s.chars().count() > 160 { format!("{}…", s.chars().take(160).collect::<String>()) } else { s }).collect::<Vec<_>>(), s.end)
 }
 
 /// Run one session and compare with the expectation. `sig` names the violation class.
